@@ -255,6 +255,11 @@ pub fn chain_id_for(network: &str) -> u64 {
     }
 }
 
+/// eth_call gas limit used by the harness configuration (VH_CALL_GAS overrides).
+pub fn call_gas_limit() -> u64 {
+    std::env::var("VH_CALL_GAS").ok().and_then(|s| s.parse().ok()).unwrap_or(100_000_000)
+}
+
 pub fn make_config(network: &str, traces: bool, btc_url: &str, db_path: &str) -> brc20_prog::Brc20ProgConfig {
     brc20_prog::Brc20ProgConfig::new(
         "127.0.0.1:0".to_string(),
@@ -262,7 +267,7 @@ pub fn make_config(network: &str, traces: bool, btc_url: &str, db_path: &str) ->
         None,
         None,
         traces,
-        1_000_000_000,
+        call_gas_limit(),
         btc_url.to_string(),
         "user".to_string(),
         "pass".to_string(),
